@@ -50,6 +50,7 @@ import (
 	"iter"
 	"regexp/syntax"
 	"strings"
+	"unicode"
 	"unicode/utf8"
 	"unsafe"
 
@@ -976,51 +977,101 @@ func (r *Regex) ExpandString(dst []byte, template string, src string, match []in
 }
 
 // expand appends template to dst and returns the result; during the
-// append, it replaces $1, $2, etc. with the corresponding submatch.
-// $0 is the entire match.
+// append, it replaces $name, ${name}, $1, ${1} ... with the corresponding
+// submatch of src, exactly as regexp.Expand does: the name after $ is the
+// longest sequence of letters, digits and underscore, a purely numeric name
+// is a group index, $$ is a literal $, a malformed reference stays as text,
+// and an unknown, out-of-range or unmatched group expands to nothing.
 func (r *Regex) expand(dst []byte, template []byte, src []byte, match []int) []byte {
-	i := 0
-	for i < len(template) {
-		if template[i] != '$' || i+1 >= len(template) {
-			dst = append(dst, template[i])
-			i++
+	tmpl := string(template)
+	for len(tmpl) > 0 {
+		before, after, ok := strings.Cut(tmpl, "$")
+		if !ok {
+			break
+		}
+		dst = append(dst, before...)
+		tmpl = after
+		if tmpl != "" && tmpl[0] == '$' {
+			dst = append(dst, '$')
+			tmpl = tmpl[1:]
 			continue
 		}
-
-		// Handle $ escape sequences
-		next := template[i+1]
-
-		// Check for $0-$9
-		if next >= '0' && next <= '9' {
-			groupNum := int(next - '0')
-			// Each group occupies 2 indices in match array
-			groupIdx := groupNum * 2
-			if groupIdx+1 < len(match) && match[groupIdx] >= 0 {
-				dst = append(dst, src[match[groupIdx]:match[groupIdx+1]]...)
+		name, num, rest, ok := extractTemplateRef(tmpl)
+		if !ok {
+			// Malformed; treat $ as raw text.
+			dst = append(dst, '$')
+			continue
+		}
+		tmpl = rest
+		if num >= 0 {
+			if 2*num+1 < len(match) && match[2*num] >= 0 {
+				dst = append(dst, src[match[2*num]:match[2*num+1]]...)
 			}
-			i += 2
-			continue
+		} else {
+			for i, namei := range r.SubexpNames() {
+				if name == namei && 2*i+1 < len(match) && match[2*i] >= 0 {
+					dst = append(dst, src[match[2*i]:match[2*i+1]]...)
+					break
+				}
+			}
 		}
+	}
+	dst = append(dst, tmpl...)
+	return dst
+}
 
-		// Check for ${name} - not supported yet, treat as literal
-		if next == '{' {
-			dst = append(dst, '$')
-			i++
-			continue
+// extractTemplateRef checks whether str begins (after the leading $, which the
+// caller has consumed) with a valid reference: name or {name}, name being a
+// non-empty run of letters, digits and underscore. It returns the name, the
+// group number if the name is all digits without a leading zero (else -1), and
+// the rest of str. This is regexp's extract.
+func extractTemplateRef(str string) (name string, num int, rest string, ok bool) {
+	if str == "" {
+		return
+	}
+	brace := false
+	if str[0] == '{' {
+		brace = true
+		str = str[1:]
+	}
+	i := 0
+	for i < len(str) {
+		r, size := utf8.DecodeRuneInString(str[i:])
+		if !unicode.IsLetter(r) && !unicode.IsDigit(r) && r != '_' {
+			break
 		}
-
-		// $$ -> $
-		if next == '$' {
-			dst = append(dst, '$')
-			i += 2
-			continue
+		i += size
+	}
+	if i == 0 {
+		// empty name is not okay
+		return
+	}
+	name = str[:i]
+	if brace {
+		if i >= len(str) || str[i] != '}' {
+			// missing closing brace
+			return
 		}
-
-		// Unknown $ escape, treat as literal
-		dst = append(dst, '$')
 		i++
 	}
-	return dst
+
+	// Parse number.
+	num = 0
+	for k := 0; k < len(name); k++ {
+		if name[k] < '0' || '9' < name[k] || num >= 1e8 {
+			num = -1
+			break
+		}
+		num = num*10 + int(name[k]) - '0'
+	}
+	// Disallow leading zeros.
+	if name[0] == '0' && len(name) > 1 {
+		num = -1
+	}
+
+	rest = str[i:]
+	ok = true
+	return
 }
 
 // ReplaceAll returns a copy of src, replacing matches of the pattern
